@@ -127,6 +127,7 @@ class RefKFAC:
         c.snap = dict(self.snap)
         c.n_updates = self.n_updates
         c.diverged = getattr(self, 'diverged', False)
+        c.ext_it = getattr(self, 'ext_it', 0)
         return c
 
     # hyper-parameters ---------------------------------------------------
@@ -134,6 +135,9 @@ class RefKFAC:
         s = self.hps[name]
         if 'c' in s:
             return s['c']
+        if s['f'] == 'ext':
+            # value of the external state at the iteration being processed
+            return s['vals'][getattr(self, 'ext_it', 0) % len(s['vals'])]
         return hpmod.ref_eval(s, self.steps if step is None else step)
 
     def sched_step(self, lambdas: dict[str, dict[str, Any]],
